@@ -76,6 +76,11 @@ def conversions(ctx, B, b, bits, light=False):
     ctx.eq('conv:pack<', call(pack, b), BM.to_packed(bits), **det)
     ctx.eq('conv:pack>', call(pack, b, '>L'), BM.to_packed(bits, True), **det)
     ctx.eq('conv:bitlist', call(lambda: (b.bitlist(), b.bitlist(-1), list(b), len(b))), (bits, bits[::-1], bits, n), **det)
+    # the conversions hand out plain Python values (usable as such: summed, formatted, indexed), not library objects
+    pc = sum(bits)
+    ctx.eq('conv:bitlist', call(lambda: (sum(b.bitlist()), sum(b.bitlist(-1)), sum(list(b)), all(isinstance(v, int) for l in (b.bitlist(), b.bitlist(-1), list(b)) for v in l))),
+           (pc, pc, pc, True), plain_values=True, **det)
+    ctx.eq('conv:int', call(lambda: (isinstance(b.int(), int), isinstance(b.int(-1), int) if n else True, isinstance(b.bit(0), int) if n else True)), (True, True, True), plain_values=True, **det)
     # in-range indices only: the property fixes no behaviour for an index outside -n..n-1
     idx = range(-n, n) if not light else sorted(set(i for i in (-n, -1, 0, n - 1, n // 2, -(n // 2) - 1) if -n <= i < n))
     for i in idx:
